@@ -12,8 +12,11 @@ def wfA : Expr → Bool
   | .unary _ e => wfA e
   | .binary op l r => op.stageA false && wfA l && wfA r
   | .cond c t f => wfA c && wfA t && wfA f
-  | .assign _ (.var _) r => wfA r
+  | .assign _ l r => l.isLValue && wfA l && wfA r
   | .inArr e _ => wfA e
+  | .incr _ _ e => e.isLValue && wfA e
+  | .field e => wfA e
+  | .index _ i => wfA i
   | _ => false
 
 /-- trees of the whole expression language of the model (the property's quantifier): additionally pre/post `++ --`,
@@ -49,14 +52,18 @@ theorem canon_mono (pc : Bool) (e : Expr) (k j : Nat) (h : canon pc k e = true) 
     simp only [canon, Bool.and_eq_true, decide_eq_true_eq] at h ⊢
     exact ⟨⟨⟨by omega, h.1.1.2⟩, h.1.2⟩, h.2⟩
   | assign op l r =>
-    cases l <;> simp [canon] at h
-    simp only [canon, Bool.and_eq_true, decide_eq_true_eq]
-    exact ⟨by omega, h.2⟩
+    simp only [canon, Bool.and_eq_true, decide_eq_true_eq] at h ⊢
+    exact ⟨⟨⟨by omega, h.1.1.2⟩, h.1.2⟩, h.2⟩
   | none => simp [canon] at h
   | inArr e a => simp only [canon, Bool.and_eq_true, decide_eq_true_eq] at h ⊢; exact ⟨by omega, h.2⟩
-  | incr p d e => simp [canon] at h
-  | field e => simp [canon] at h
-  | index a i => simp [canon] at h
+  | incr p d e =>
+    cases p
+    · cases e <;> simp only [canon, Bool.and_eq_true, decide_eq_true_eq, Bool.false_eq_true] at h ⊢ <;>
+        first | omega | exact ⟨by omega, h.2⟩ | exact ⟨⟨by omega, h.1.2⟩, h.2⟩
+    · simp only [canon, Bool.and_eq_true, decide_eq_true_eq] at h ⊢
+      exact ⟨⟨by omega, h.1.2⟩, h.2⟩
+  | field e => simp only [canon, Bool.and_eq_true, decide_eq_true_eq] at h ⊢; exact ⟨by omega, h.2⟩
+  | index a i => simp only [canon, Bool.and_eq_true, decide_eq_true_eq] at h ⊢; exact ⟨by omega, h.2⟩
   | getline c t f => simp [canon] at h
 
 theorem one_le_prec (e : Expr) : 1 ≤ e.prec := by
@@ -89,6 +96,32 @@ theorem fit_ok (e : Expr) (ih : MinOk e) (pc : Bool) (q : Nat) (hq : q ≤ 15) :
       simp only [topLevel, Bool.false_and, Bool.false_eq_true, if_false]
       exact one_le_prec e
     · simp only [strip]; exact (ih false).2
+
+theorem closed_min (e : Expr) (hw : wfA e = true) (hnf : isField e = false) (hp : 14 ≤ e.prec) :
+    closed (addMin false e) = true := by
+  cases e with
+  | num i => simp [addMin, closed]
+  | var i => simp [addMin, closed]
+  | str i => simp [addMin, closed]
+  | index a i => rw [addMin]; rfl
+  | field e => simp [isField] at hnf
+  | binary op l r => exfalso; cases op <;> simp [Expr.prec, BOp.prec] at hp
+  | unary op e => simp [Expr.prec] at hp
+  | cond c t f => simp [Expr.prec] at hp
+  | assign op l r => simp [Expr.prec] at hp
+  | inArr e a => simp [Expr.prec] at hp
+  | incr p d e => simp [Expr.prec] at hp
+  | none => simp [wfA] at hw
+  | group e => simp [wfA] at hw
+  | getline c t f => simp [wfA] at hw
+
+/-- the minimal rendering of an lvalue is an lvalue that `primary()` reads -/
+theorem lv_min (l : Expr) (hlv : l.isLValue = true) (ih : MinOk l) :
+    (addMin false l).isLValue = true ∧ canon false 14 (addMin false l) = true ∧ strip (addMin false l) = l := by
+  have h := ih false
+  refine ⟨?_, h.1 14 ?_, h.2⟩
+  · cases l <;> simp [Expr.isLValue] at hlv <;> simp [addMin, Expr.isLValue]
+  · cases l <;> simp [Expr.isLValue] at hlv <;> simp [topLevel, printSpecial, Expr.prec]
 
 theorem min_ok (e : Expr) (hwf : wfA e = true) : MinOk e := by
   induction e with
@@ -178,24 +211,23 @@ theorem min_ok (e : Expr) (hwf : wfA e = true) : MinOk e := by
       simp only [topLevel, Bool.false_and, Bool.false_eq_true, if_false]
       exact one_le_prec t
     · simp only [strip, hc.2, ht.2, hf.2]
-  | assign op l r _ ihr =>
+  | assign op l r ihl ihr =>
     intro pc
-    cases l <;> simp only [wfA, Bool.false_eq_true] at hwf
-    case var a _ =>
-      have hr := ihr hwf pc
-      rw [addMin]
-      have hv : addMin false (Expr.var a) = Expr.var a := by simp [addMin]
-      rw [hv]
-      refine ⟨?_, ?_⟩
-      · intro k hk
-        simp only [topLevel, printSpecial, Bool.and_false, Bool.false_eq_true, if_false, Expr.prec] at hk
-        simp only [canon, Bool.and_eq_true, decide_eq_true_eq]
-        refine ⟨hk, hr.1 1 ?_⟩
-        unfold topLevel
-        split
-        · omega
-        · exact one_le_prec r
-      · simp only [strip, hr.2]
+    simp only [wfA, Bool.and_eq_true] at hwf
+    obtain ⟨⟨hlv, hwl⟩, hwr⟩ := hwf
+    have hr := ihr hwr pc
+    have hl := lv_min l hlv (ihl hwl)
+    rw [addMin]
+    refine ⟨?_, ?_⟩
+    · intro k hk
+      simp only [topLevel, printSpecial, Bool.and_false, Bool.false_eq_true, if_false, Expr.prec] at hk
+      simp only [canon, Bool.and_eq_true, decide_eq_true_eq]
+      refine ⟨⟨⟨hk, hl.1⟩, hl.2.1⟩, hr.1 1 ?_⟩
+      unfold topLevel
+      split
+      · omega
+      · exact one_le_prec r
+    · simp only [strip, hr.2, hl.2.2]
   | none => simp [wfA] at hwf
   | group e _ => simp [wfA] at hwf
   | inArr e a ih =>
@@ -209,9 +241,90 @@ theorem min_ok (e : Expr) (hwf : wfA e = true) : MinOk e := by
       simp only [canon, Bool.and_eq_true, decide_eq_true_eq]
       exact ⟨hk, hf.1⟩
     · simp only [strip, hf.2]
-  | incr p d e _ => simp [wfA] at hwf
-  | field e _ => simp [wfA] at hwf
-  | index a i _ => simp [wfA] at hwf
+  | incr p d e ih =>
+    intro pc
+    simp only [wfA, Bool.and_eq_true] at hwf
+    have hl := lv_min e hwf.1 (ih hwf.2)
+    cases p
+    · -- post-increment
+      cases e with
+      | var a =>
+        have hv : addMin pc (.incr false d (.var a)) = .incr false d (.var a) := by simp [addMin]
+        rw [hv]
+        refine ⟨?_, rfl⟩
+        intro k hk
+        simp only [topLevel, printSpecial, Bool.and_false, Bool.false_eq_true, if_false, Expr.prec] at hk
+        simpa [canon] using hk
+      | index a i =>
+        have hv : addMin pc (.incr false d (.index a i)) = .incr false d (addMin false (.index a i)) := by simp [addMin]
+        rw [hv]
+        have h14 := hl.2.1
+        have hs := hl.2.2
+        rw [addMin] at h14 hs ⊢
+        simp only [canon, Bool.and_eq_true, decide_eq_true_eq] at h14
+        refine ⟨?_, by simpa only [strip] using congrArg (Expr.incr false d) hs⟩
+        intro k hk
+        simp only [topLevel, printSpecial, Bool.and_false, Bool.false_eq_true, if_false, Expr.prec] at hk
+        simp only [canon, Bool.and_eq_true, decide_eq_true_eq]
+        exact ⟨hk, h14.2⟩
+      | field e' =>
+        rw [addMin]
+        have h14 := hl.2.1
+        have hs := hl.2.2
+        rw [addMin] at h14 hs
+        simp only [canon, Bool.and_eq_true, decide_eq_true_eq, strip, Expr.field.injEq] at h14 hs
+        simp only [wfA] at hwf
+        by_cases hfld : isField e' = true
+        · -- `$$x ++` must be written `$($x) ++`
+          have hfit : fitMin false 14 e' = addMin false e' := by
+            rw [fitMin]; cases e' <;> simp_all [isField, Expr.prec]
+          rw [hfit] at h14 hs
+          simp only [hfld, if_true]
+          refine ⟨?_, by simp only [strip, hs]⟩
+          intro k hk
+          simp only [topLevel, printSpecial, Bool.and_false, Bool.false_eq_true, if_false, Expr.prec] at hk
+          have hc1 := canon_mono false _ 14 1 h14.2 (by omega)
+          simp [canon, closed, hk, hc1]
+        · simp only [hfld, Bool.false_eq_true, if_false]
+          refine ⟨?_, by simp only [strip, hs]⟩
+          intro k hk
+          simp only [topLevel, printSpecial, Bool.and_false, Bool.false_eq_true, if_false, Expr.prec] at hk
+          simp only [canon, Bool.and_eq_true, decide_eq_true_eq]
+          refine ⟨⟨hk, ?_⟩, h14.2⟩
+          rw [fitMin]
+          split
+          · rename_i hp
+            exact closed_min e' hwf.2 (by simpa using hfld) hp
+          · rfl
+      | _ => simp [Expr.isLValue] at hwf
+    · -- pre-increment
+      rw [addMin]
+      refine ⟨?_, by simp only [strip, hl.2.2]⟩
+      intro k hk
+      simp only [topLevel, printSpecial, Bool.and_false, Bool.false_eq_true, if_false, Expr.prec] at hk
+      simp only [canon, Bool.and_eq_true, decide_eq_true_eq]
+      exact ⟨⟨hk, hl.1⟩, hl.2.1⟩
+  | field e ih =>
+    intro pc
+    simp only [wfA] at hwf
+    have hf := fit_ok e (ih hwf) false 14 (by omega)
+    rw [addMin]
+    refine ⟨?_, by simp only [strip, hf.2]⟩
+    intro k hk
+    simp only [topLevel, printSpecial, Bool.and_false, Bool.false_eq_true, if_false, Expr.prec] at hk
+    simp only [canon, Bool.and_eq_true, decide_eq_true_eq]
+    exact ⟨hk, hf.1⟩
+  | index a i ih =>
+    intro pc
+    simp only [wfA] at hwf
+    have hi := ih hwf false
+    rw [addMin]
+    refine ⟨?_, by simp only [strip, hi.2]⟩
+    intro k hk
+    simp only [topLevel, printSpecial, Bool.and_false, Bool.false_eq_true, if_false, Expr.prec] at hk
+    simp only [canon, Bool.and_eq_true, decide_eq_true_eq]
+    refine ⟨hk, hi.1 1 ?_⟩
+    simp only [topLevel, Bool.false_and, Bool.false_eq_true, if_false]; exact one_le_prec i
   | getline c t f _ _ _ => simp [wfA] at hwf
 
 theorem grp_start (r : Expr) (hw : wfA r = true) : startOk (hd (render (grp r))) = true := by
@@ -234,6 +347,22 @@ theorem grp_ok (e : Expr) (h1 : canon false 1 (addFull e) = true) (h2 : strip (a
     intro pc k hk
     simp only [canon, Bool.and_eq_true, decide_eq_true_eq]
     exact ⟨hk, h1⟩
+
+theorem closed_grp (e : Expr) (hw : wfA e = true) : closed (grp e) = true := by
+  rw [grp]
+  cases e <;> simp_all [isAtom, closed, wfA]
+
+/-- the fully parenthesised rendering of an lvalue is an lvalue that `primary()` reads -/
+theorem lv_full (l : Expr) (hlv : l.isLValue = true) (h1 : canon false 1 (addFull l) = true) :
+    (addFull l).isLValue = true ∧ canon false 14 (addFull l) = true := by
+  cases l <;> simp [Expr.isLValue] at hlv
+  · simp [addFull, Expr.isLValue, canon]
+  · rw [addFull] at h1 ⊢
+    simp only [canon, Bool.and_eq_true, decide_eq_true_eq] at h1 ⊢
+    exact ⟨rfl, by omega, h1.2⟩
+  · rw [addFull] at h1 ⊢
+    simp only [canon, Bool.and_eq_true, decide_eq_true_eq] at h1 ⊢
+    exact ⟨rfl, by omega, h1.2⟩
 
 theorem full_ok (e : Expr) (hwf : wfA e = true) : FullOk e := by
   induction e with
@@ -276,17 +405,17 @@ theorem full_ok (e : Expr) (hwf : wfA e = true) : FullOk e := by
       exact ⟨⟨⟨by omega, hc.1 false 3 (by omega)⟩, ht.1 false 1 (by omega)⟩, hf.1 false 1 (by omega)⟩
     have h2 : strip (addFull (.cond c t f)) = .cond c t f := by rw [addFull]; simp only [strip, hc.2, ht.2, hf.2]
     exact ⟨⟨h1, h2⟩, grp_ok _ h1 h2 (by intro h; simp [isAtom] at h) (by intro h; simp [isAtom] at h)⟩
-  | assign op l r _ ihr =>
-    cases l <;> simp only [wfA, Bool.false_eq_true] at hwf
-    case var a _ =>
-      have hr := (ihr hwf).2
-      have hv : addFull (Expr.var a) = Expr.var a := by simp [addFull]
-      have h1 : canon false 1 (addFull (.assign op (.var a) r)) = true := by
-        rw [addFull, hv]; simp only [canon, Bool.and_eq_true, decide_eq_true_eq]
-        exact ⟨by omega, hr.1 false 1 (by omega)⟩
-      have h2 : strip (addFull (.assign op (.var a) r)) = .assign op (.var a) r := by
-        rw [addFull, hv]; simp only [strip, hr.2]
-      exact ⟨⟨h1, h2⟩, grp_ok _ h1 h2 (by intro h; simp [isAtom] at h) (by intro h; simp [isAtom] at h)⟩
+  | assign op l r ihl ihr =>
+    simp only [wfA, Bool.and_eq_true] at hwf
+    obtain ⟨⟨hlv, hwl⟩, hwr⟩ := hwf
+    have hr := (ihr hwr).2
+    have hl := lv_full l hlv (ihl hwl).1.1
+    have h1 : canon false 1 (addFull (.assign op l r)) = true := by
+      rw [addFull]; simp only [canon, Bool.and_eq_true, decide_eq_true_eq]
+      exact ⟨⟨⟨by omega, hl.1⟩, hl.2⟩, hr.1 false 1 (by omega)⟩
+    have h2 : strip (addFull (.assign op l r)) = .assign op l r := by
+      rw [addFull]; simp only [strip, hr.2, (ihl hwl).1.2]
+    exact ⟨⟨h1, h2⟩, grp_ok _ h1 h2 (by intro h; simp [isAtom] at h) (by intro h; simp [isAtom] at h)⟩
   | none => simp [wfA] at hwf
   | group e _ => simp [wfA] at hwf
   | inArr e a ih =>
@@ -296,9 +425,44 @@ theorem full_ok (e : Expr) (hwf : wfA e = true) : FullOk e := by
       rw [addFull]; simp only [canon, Bool.and_eq_true, decide_eq_true_eq]; exact ⟨by omega, he.1 false 5 (by omega)⟩
     have h2 : strip (addFull (.inArr e a)) = .inArr e a := by rw [addFull]; simp only [strip, he.2]
     exact ⟨⟨h1, h2⟩, grp_ok _ h1 h2 (by intro h; simp [isAtom] at h) (by intro h; simp [isAtom] at h)⟩
-  | incr p d e _ => simp [wfA] at hwf
-  | field e _ => simp [wfA] at hwf
-  | index a i _ => simp [wfA] at hwf
+  | incr p d e ih =>
+    simp only [wfA, Bool.and_eq_true] at hwf
+    have hl := lv_full e hwf.1 (ih hwf.2).1.1
+    have hs := (ih hwf.2).1.2
+    have h1 : canon false 1 (addFull (.incr p d e)) = true := by
+      rw [addFull]
+      cases p
+      · cases e with
+        | var a => simp [addFull, canon]
+        | index a i =>
+          have h14 := hl.2
+          rw [addFull] at h14 ⊢
+          simpa [canon] using h14
+        | field e' =>
+          have h14 := hl.2
+          rw [addFull] at h14 ⊢
+          simp only [wfA] at hwf
+          simp only [canon, Bool.and_eq_true, decide_eq_true_eq] at h14 ⊢
+          exact ⟨⟨by omega, closed_grp e' hwf.2⟩, h14.2⟩
+        | _ => simp [Expr.isLValue] at hwf
+      · simp only [canon, Bool.and_eq_true, decide_eq_true_eq]
+        exact ⟨⟨by omega, hl.1⟩, hl.2⟩
+    have h2 : strip (addFull (.incr p d e)) = .incr p d e := by rw [addFull]; simp only [strip, hs]
+    exact ⟨⟨h1, h2⟩, grp_ok _ h1 h2 (by intro h; simp [isAtom] at h) (by intro h; simp [isAtom] at h)⟩
+  | field e ih =>
+    simp only [wfA] at hwf
+    have he := (ih hwf).2
+    have h1 : canon false 1 (addFull (.field e)) = true := by
+      rw [addFull]; simp only [canon, Bool.and_eq_true, decide_eq_true_eq]; exact ⟨by omega, he.1 false 14 (by omega)⟩
+    have h2 : strip (addFull (.field e)) = .field e := by rw [addFull]; simp only [strip, he.2]
+    exact ⟨⟨h1, h2⟩, grp_ok _ h1 h2 (by intro h; simp [isAtom] at h) (by intro h; simp [isAtom] at h)⟩
+  | index a i ih =>
+    simp only [wfA] at hwf
+    have he := (ih hwf).2
+    have h1 : canon false 1 (addFull (.index a i)) = true := by
+      rw [addFull]; simp only [canon, Bool.and_eq_true, decide_eq_true_eq]; exact ⟨by omega, he.1 false 1 (by omega)⟩
+    have h2 : strip (addFull (.index a i)) = .index a i := by rw [addFull]; simp only [strip, he.2]
+    exact ⟨⟨h1, h2⟩, grp_ok _ h1 h2 (by intro h; simp [isAtom] at h) (by intro h; simp [isAtom] at h)⟩
   | getline c t f _ _ _ => simp [wfA] at hwf
 
 /-! ### the concrete fuel of `parseExpr` suffices -/
@@ -338,21 +502,43 @@ theorem depth_lt_render (e : Expr) : ∀ pc k, canon pc k e = true → depth e <
     have : max (depth c) (max (depth t) (depth f)) ≤ depth c + max (depth t) (depth f) :=
       Nat.max_le.mpr ⟨Nat.le_add_right _ _, Nat.le_add_left _ _⟩
     omega
-  | assign op l r _ ihr =>
+  | assign op l r ihl ihr =>
     intro pc k h
-    cases l <;> simp [canon] at h
+    simp only [canon, Bool.and_eq_true] at h
+    have h1 := ihl _ _ h.1.2
     have h2 := ihr _ _ h.2
-    simp only [depth, render, List.length_append, List.length_cons, List.length_nil, Nat.zero_max]
-    omega
+    simp only [depth, render, List.length_append, List.length_cons]
+    rcases Nat.le_total (depth l) (depth r) with hle | hle
+    · rw [Nat.max_eq_right hle]; omega
+    · rw [Nat.max_eq_left hle]; omega
   | none => intro pc k h; simp [canon] at h
   | inArr e a ih =>
     intro pc k h
     simp only [canon, Bool.and_eq_true] at h
     have := ih _ _ h.2
     simp only [depth, render, List.length_append, List.length_cons, List.length_nil]; omega
-  | incr p d e _ => intro pc k h; simp [canon] at h
-  | field e _ => intro pc k h; simp [canon] at h
-  | index a i _ => intro pc k h; simp [canon] at h
+  | incr p d e ih =>
+    intro pc k h
+    have he : ∃ pc' k', canon pc' k' e = true := by
+      cases p
+      · cases e <;> simp [canon] at h
+        · exact ⟨false, 1, by simp [canon]⟩
+        · exact ⟨false, 1, by simp [canon, h.2]⟩
+        · exact ⟨false, 1, by simp [canon, h.2]⟩
+      · simp only [canon, Bool.and_eq_true] at h; exact ⟨false, 14, h.2⟩
+    obtain ⟨pc', k', hc'⟩ := he
+    have := ih _ _ hc'
+    cases p <;> simp only [depth, render, if_true, Bool.false_eq_true, if_false, List.length_append, List.length_cons, List.length_nil] <;> omega
+  | field e ih =>
+    intro pc k h
+    simp only [canon, Bool.and_eq_true] at h
+    have := ih _ _ h.2
+    simp only [depth, render, List.length_cons]; omega
+  | index a i ih =>
+    intro pc k h
+    simp only [canon, Bool.and_eq_true] at h
+    have := ih _ _ h.2
+    simp only [depth, render, List.length_append, List.length_cons, List.length_nil]; omega
   | getline c t f _ _ _ => intro pc k h; simp [canon] at h
 
 /-- `parseExpr` (fuel = number of tokens) reads a canonical tree back, whatever follows it (follow-set condition) -/
